@@ -5,6 +5,7 @@ import warnings
 from astropy.io.misc.hdf5 import _encode_mixins, meta_path
 
 # Third-party
+import numpy as np
 from astropy.table.meta import get_header_from_yaml, get_yaml_from_table
 from astropy.utils import metadata
 from astropy.utils.exceptions import AstropyUserWarning
@@ -33,6 +34,16 @@ def _custom_tbl_dtype_compare(dtype1, dtype2):
                     return False
 
     return True
+
+
+def _meta_differs(a, b):
+    """True if two metadata values (or dictionaries of them) are not the same"""
+    if isinstance(a, dict) and isinstance(b, dict):
+        return set(a) != set(b) or any(_meta_differs(a[k], b[k]) for k in a)
+    try:
+        return np.shape(a) != np.shape(b) or not bool(np.all(a == b))
+    except Exception:
+        return True
 
 
 def write_table_hdf5(
@@ -254,6 +265,20 @@ def write_table_hdf5(
                     f"the metadata '{key}' is set in only one of the "
                     "existing file table and this table object."
                 )
+
+        # ...nor list, array or dict values that differ, nor a key that only one of
+        # the two has (those are merged): with metadata_conflicts="error" the
+        # metadata have to be the same, because the file keeps its own
+        if metadata_conflicts == "error" and _meta_differs(
+            existing_header["meta"], table.meta
+        ):
+            raise metadata.MergeConflictError(
+                "Cannot append table to existing file because "
+                "the existing file table metadata and this "
+                "table object's metadata do not match. If you "
+                "want to ignore this issue, or change to a "
+                "warning, set metadata_conflicts='silent' or 'warn'."
+            )
 
         try:
             # FIXME: do something with the merged metadata!
